@@ -13,6 +13,8 @@ NoTimes  == {}
 Times3   == {[d |-> "d1", m |-> "m1"], [d |-> "d1", m |-> "m2"], [d |-> "d2", m |-> "m3"]}
 Times2   == {[d |-> "d1", m |-> "m1"], [d |-> "d2", m |-> "m3"]}
 KeysEv   == {"k1", EvKey}
+KeysEvOnly == {EvKey}
+ListsXY  == {<<>>, <<"x", "y">>}
 
 \* spec -> impl edge enumeration: only the dictionary distinguishes states (ghosts and `last` hidden;
 \* no invariant mentions them in that configuration)
